@@ -13,7 +13,7 @@ BUILTINS = {'len', 'ord', 'chr', 'int', 'float', 'str', 'callable', 'isinstance'
             'set', 'sorted', 'reversed', 'filter', 'map', 'zip', 'any', 'all', 'repr', 'print',
             'IndexError', 'ValueError', 'TypeError', 'KeyError'}
 SPEC_FORMS = {'old', 'forall', 'exists', 'implies', 'holds', 'fresh', 'iff', 'ite', 'kind_is',
-              'same_str', 'allocated', 'unchanged', 'owned', 'chars_hold', 'numshape',
+              'same_str', 'allocated', 'unchanged', 'owned', 'chars_hold', 'occurs_at', 'numshape',
               'has', 'at', 'mget', 'forall_keys', 'same', 'total_len', 'int_str', 'uf_real', 'keyis'}
 
 LIST_MUTATORS = {'append', 'pop', 'clear', 'insert', 'extend', 'sort', 'reverse', 'remove'}
